@@ -24,6 +24,7 @@ type c15Case struct {
 	Val  string `json:"val,omitempty"` // name of a Go value in c15Values
 	NPh  int    `json:"placeholders,omitempty"`
 	NArg int    `json:"arguments,omitempty"`
+	Text string `json:"text,omitempty"` // a program text with placeholders (kind "text")
 	// scan
 	Query string `json:"query,omitempty"`
 	Dest  string `json:"dest,omitempty"`
@@ -202,6 +203,48 @@ func c15Run(c *c15Case) (exp, act, sig string, ok bool) {
 		err = p.Exec(text, args...)
 		if (c.NPh != c.NArg) != (err != nil) {
 			return fmt.Sprintf("Exec: error iff the counts differ (%d placeholders, %d arguments)", c.NPh, c.NArg), fmt.Sprintf("err=%v", err), "placeholder: count mismatch not reported by Exec", false
+		}
+		return "", "", "", true
+	case "text":
+		// a text of several clauses and directives with placeholders distributed over them (c.Text, '?' marks);
+		// arguments are 0, 1, 2, ... and the string "s<i>": the loaded facts must hold exactly those values
+		args := make([]interface{}, c.NArg)
+		for i := range args {
+			if i%2 == 0 {
+				args[i] = i
+			} else {
+				args[i] = fmt.Sprintf("s%d", i)
+			}
+		}
+		nph := strings.Count(c.Text, "?")
+		err := p.Exec(c.Text, args...)
+		if (nph != c.NArg) != (err != nil) {
+			return fmt.Sprintf("Exec(%q): error iff the counts differ (%d placeholders, %d arguments)", c.Text, nph, c.NArg), fmt.Sprintf("err=%v", err), "placeholder: a text of several clauses: count mismatch not reported / matching count rejected", false
+		}
+		if err != nil {
+			return "", "", "", true
+		}
+		got, qerr := c15Query(p, "findall(V, ph(V), X) .")
+		if nph == 0 {
+			return "", "", "", true
+		}
+		if qerr != nil {
+			return "ph/1 holds the placeholder values", qerr.Error(), "placeholder: a text of several clauses: values not loaded", false
+		}
+		var want []ref.Term
+		for i := 0; i < nph; i++ {
+			if i%2 == 0 {
+				want = append(want, ref.Int(int64(i)))
+			} else {
+				var cs []ref.Term
+				for _, r := range fmt.Sprintf("s%d", i) {
+					cs = append(cs, ref.Atom(string(r)))
+				}
+				want = append(want, ref.List(cs...))
+			}
+		}
+		if !c15Same(got, ref.List(want...)) {
+			return ref.Canon(ref.List(want...), ref.NewNamer()), ref.Canon(got, ref.NewNamer()), "placeholder: a text of several clauses: values differ", false
 		}
 		return "", "", "", true
 	case "scan":
@@ -519,6 +562,23 @@ func c15Work(w *h.W) {
 			emit(&c15Case{Kind: "count", NPh: nph, NArg: na}, nph+na)
 		}
 	}
+	// texts of several items with the placeholders distributed over them in every way
+	items := []string{"ph(?).", "a(1).", ":- true.", "% c\n", "ph(?) :- true.", ":- dynamic(d/1).", "ph(?). ", ""}
+	for l := 0; l <= w.Pick(3, 4); l++ {
+		seqs(l, len(items), func(idx []int) bool {
+			text := ""
+			for _, i := range idx {
+				text += items[i] + " "
+			}
+			for na := 0; na <= 3; na++ {
+				if !w.Mine() {
+					continue
+				}
+				emit(&c15Case{Kind: "text", Text: text, NArg: na}, l+na)
+			}
+			return true
+		})
+	}
 	for _, a := range c15Answers() {
 		for _, d := range c15Dests {
 			if !w.Mine() {
@@ -541,7 +601,7 @@ func c15Replay(b []byte) (string, string, bool) {
 func init() {
 	h.Register(&h.Check{
 		ID: "C15",
-		Rule: "placeholders: ALL strings of length <= L over a 26-rune alphabet of syntax-significant characters (quotes, backslash, '.', ',', brackets, '|', '%', '?', ':', '-', space, newline, NUL, multi-byte, U+10FFFF, digit) plus strings that spell Prolog syntax, x double_quotes {codes, chars, atom, default} x 6 positions (top level, argument, list element, operand of a prefix operator, twice in one term, shared through a variable); integers of every Go width at their extremes, floats incl. +-max, denormal, -0.0, float32, nested slices/arrays; unsupported Go kinds must be rejected; every (placeholder count, argument count) pair in {0..3}^2 through Query and Exec. Scan: 61 answer values (integers around every width boundary, floats around the float32 range, atoms, lists proper/nested/mixed, partial and improper lists, compounds, unbound, and the same lists as answers of append/findall/sort/=../length, atom_chars/atom_codes and double-quoted strings) x 16 destination types x 3 carriers (struct, map, map with a second list-valued variable). Distinct = case.",
+		Rule: "placeholders: ALL strings of length <= L over a 26-rune alphabet of syntax-significant characters (quotes, backslash, '.', ',', brackets, '|', '%', '?', ':', '-', space, newline, NUL, multi-byte, U+10FFFF, digit) plus strings that spell Prolog syntax, x double_quotes {codes, chars, atom, default} x 6 positions (top level, argument, list element, operand of a prefix operator, twice in one term, shared through a variable); integers of every Go width at their extremes, floats incl. +-max, denormal, -0.0, float32, nested slices/arrays; unsupported Go kinds must be rejected; every (placeholder count, argument count) pair in {0..3}^2 through Query and Exec; every text of <= 3 (4) items out of 8 (facts and rules with a placeholder, plain clauses, directives, comments, nothing) x 0..3 arguments through Exec: an error iff the counts differ, and the loaded facts hold exactly the values. Scan: 61 answer values (integers around every width boundary, floats around the float32 range, atoms, lists proper/nested/mixed, partial and improper lists, compounds, unbound, and the same lists as answers of append/findall/sort/=../length, atom_chars/atom_codes and double-quoted strings) x 16 destination types x 3 carriers (struct, map, map with a second list-valued variable). Distinct = case.",
 		Explanation: "state = one (Go value, context) pair; transition = one Query with placeholders (the term bound to X is captured structurally and must equal the term the literal with exactly those runes denotes, so nothing in the string can have been read as syntax), or one Scan (the stored Go value must represent the answer exactly, or Scan returns an error)",
 		Assumptions: []string{"a float32 destination may hold the nearest float32 of a value that is not representable; overflow to infinity or flush to zero must be an error", "a string destination may hold the text of any term"},
 		Work:        c15Work,
